@@ -30,6 +30,15 @@
         placeholder = the scan limit, claim_interleaving_comments(cs) raises ValueError('1 comment(s) not found.');
         reproduced on the implementation (parse '2000-01-01 open Assets:A\n', raw_meta_with_comments.append(
         BlockComment.from_value('c', indent='  ')), unclaim_interleaving_comments(), claim_interleaving_comments(u)).
+   Placement (session 4c, CommentsPlacement.v): C14_claim_entries_inside - after a successful claim the field's own
+     placeholder precedes every entry of the returned list, the entries lie in store order behind it (items_behind_b for
+     the returned items = the hypothesis of the next call; NoDup and ph_ok_b are kept) and no placeholder stands between
+     the placeholder and the last comment claimed in front, nor between the last item and the last comment claimed behind
+     (tight_b).  C14_claim_nearest_front_refuted / C14_claim_first_behind_refuted: the regressions seeded/C05-m8
+     (comments_before[-1]) and seeded/C14-m9 (comments_after[0]) keep return value and flags but break the first resp.
+     the second conclusion.  C14_field_history_placement: every sequence of claim / unclaim interleaving calls on one
+     field keeps the invariant.  Hypotheses and both conclusions are evaluated at every claimer call of every trace, the
+     conclusions on the token order the implementation reports (CommentsRun.placement_ok; counter hyp_placement_checked).
    Still partial:
      C14_rule_single_claim is complete for one surrounding claim (declarative iff on the token list; the
         _sound/_complete forms add the resulting document).
@@ -356,3 +365,60 @@ Proof.
   split; [apply (proj1 (rule_single_claim ex_doc 3 false true None 6 ex_doc_nodup)); vm_compute; reflexivity|].
   repeat split; vm_compute; reflexivity.
 Qed.
+
+(* ---- session 4c: placement of the claimed entries and of the placeholders ------------------------------------------ *)
+From AB Require Import CommentsPlacement.
+
+Theorem C14_claim_entries_inside : forall d ph items mf ml flt ret its d',
+  NoDup (ids d) -> ph_ok_b d ph = true -> items_behind_b d ph items = true ->
+  claimer_claim d ph items mf ml flt = (Ok (ret, its), d') ->
+  map oitem_of (claim_items d ph items mf ml flt) = its /\
+  NoDup (ids d') /\ ph_ok_b d' ph = true /\
+  items_behind_b d' ph (claim_items d ph items mf ml flt) = true /\
+  (let '(cb, _, ca) := claim_parts d ph items mf ml flt in tight_b d' ph (rep_last ph items) cb ca = true).
+Proof. exact claim_placement. Qed.
+
+(* items_behind_b is the strict form of the hypothesis op_ok asks for *)
+Theorem C14_items_behind_ordered : forall d ph items, NoDup (ids d) -> ph_ok_b d ph = true ->
+  items_behind_b d ph items = true -> items_ordered_b d ph items = true.
+Proof. exact behind_ordered. Qed.
+
+Theorem C14_claim_nearest_front_refuted :
+  let items := [mkitem false 0 8 8] in
+  NoDup (ids pa_doc) /\ ph_ok_b pa_doc 6 = true /\ items_behind_b pa_doc 6 items = true /\
+  fst (claimer_claim_nearest_front pa_doc 6 items 1 8 None) = fst (claimer_claim pa_doc 6 items 1 8 None) /\
+  fst (claimer_claim pa_doc 6 items 1 8 None) = Ok ([2; 4], [(true, 2); (true, 4); (false, 0)]) /\
+  map t_id (filter t_claimed (snd (claimer_claim_nearest_front pa_doc 6 items 1 8 None))) = [2; 4] /\
+  items_behind_b (snd (claimer_claim pa_doc 6 items 1 8 None)) 6 (claim_items pa_doc 6 items 1 8 None) = true /\
+  items_behind_b (snd (claimer_claim_nearest_front pa_doc 6 items 1 8 None)) 6 (claim_items pa_doc 6 items 1 8 None) = false /\
+  ids (snd (claimer_claim_nearest_front pa_doc 6 items 1 8 None)) = [1; 2; 3; 6; 4; 5; 7; 8].
+Proof. exact nearest_front_refuted. Qed.
+
+Theorem C14_claim_first_behind_refuted :
+  let items := [mkitem false 0 2 2] in
+  NoDup (ids pb_doc) /\ ph_ok_b pb_doc 1 = true /\ items_behind_b pb_doc 1 items = true /\
+  fst (claimer_claim_first_behind pb_doc 1 items 1 9 None) = fst (claimer_claim pb_doc 1 items 1 9 None) /\
+  fst (claimer_claim pb_doc 1 items 1 9 None) = Ok ([4; 7], [(false, 0); (true, 4); (true, 7)]) /\
+  map t_id (filter t_claimed (snd (claimer_claim_first_behind pb_doc 1 items 1 9 None))) = [4; 7] /\
+  tight_b (snd (claimer_claim pb_doc 1 items 1 9 None)) 1 2 [] [4; 7] = true /\
+  tight_b (snd (claimer_claim_first_behind pb_doc 1 items 1 9 None)) 1 2 [] [4; 7] = false /\
+  ids (snd (claimer_claim pb_doc 1 items 1 9 None)) = [1; 2; 3; 4; 6; 7; 5; 8; 9] /\
+  ids (snd (claimer_claim_first_behind pb_doc 1 items 1 9 None)) = [1; 2; 3; 4; 5; 6; 7; 8; 9].
+Proof. exact first_behind_refuted. Qed.
+
+Theorem C14_field_history_placement : forall ph ops st, FInv ph st -> FInv ph (fold_left (fstep ph) ops st).
+Proof. exact field_history_inv. Qed.
+
+(* non-vacuity: on pa_doc the hypotheses hold, the claim takes both comments in front, and a history claim / unclaim
+   one / claim again keeps the invariant with a changing entry list *)
+Example C14_placement_nonvacuous :
+  let st0 := (pa_doc, [mkitem false 0 8 8]) in
+  ph_ok_b pa_doc 6 = true /\ items_behind_b pa_doc 6 (snd st0) = true /\
+  ids (fst (fstep 6 st0 (FClaim 1 8 None))) = [1; 6; 2; 3; 4; 5; 7; 8] /\
+  map oitem_of (snd (fstep 6 st0 (FClaim 1 8 None))) = [(true, 2); (true, 4); (false, 0)] /\
+  map oitem_of (snd (fold_left (fstep 6) [FClaim 1 8 None; FUnclaim (Some [2])] st0)) = [(true, 4); (false, 0)] /\
+  map oitem_of (snd (fold_left (fstep 6) [FClaim 1 8 None; FUnclaim (Some [2]); FClaim 1 8 (Some [2])] st0))
+    = [(true, 2); (true, 4); (false, 0)] /\
+  items_behind_b (fst (fold_left (fstep 6) [FClaim 1 8 None; FUnclaim (Some [2]); FClaim 1 8 (Some [2])] st0)) 6
+    (snd (fold_left (fstep 6) [FClaim 1 8 None; FUnclaim (Some [2]); FClaim 1 8 (Some [2])] st0)) = true.
+Proof. repeat split; vm_compute; reflexivity. Qed.
